@@ -170,7 +170,11 @@ def make_plan(seed: int, tier: str, index: int) -> dict[str, Any]:
                         "est_steps": max(200, total_ops * s.choice([500, 1500, 3000]))}
     if sub == "long":
         knobs["retain_results"] = False
-    if schedule["mode"] != "sequential" and s.random() < 0.2:
+    if schedule["mode"] != "sequential" and s.random() < 0.25:
+        # write-biased schedule: switch right after heap writes, then let the other thread run long
+        schedule = {"mode": "writes", "seed": s.getrandbits(32), "p": s.choice([0.1, 0.3, 0.6]),
+                    "hold": s.choice([20, 200, 1000, 4000])}
+    elif schedule["mode"] != "sequential" and s.random() < 0.2:
         # knob: pre-empt between bytecodes (sys.monitoring) instead of between source lines
         schedule["granularity"] = "opcode"
         if "est_steps" in schedule:
